@@ -19,6 +19,9 @@ def generalises(reported, expected):
     """the type the editor reports may be more general than the generator's monomorphic typing (`let v = None` has type
     `Option a`, the generator uses it at Option Int): a type variable of the reported type stands for any type"""
     r = re.sub(r"^forall [a-z0-9 ]+\. ", "", reported)
+    # an open row tail on a value that went through a row-polymorphic function (the checker leaves the tail
+    # un-unified, see the C03 findings) stands for the empty row here
+    r = re.sub(r" \| [a-z][a-z0-9_]* \}", " }", r)
     if r == expected:
         return True
     pat = "".join("(.+)" if re.fullmatch(r"[a-z][a-z0-9_]*", tok) else re.escape(tok) for tok in re.split(r"(\b[a-z][a-z0-9_]*\b)", r))
